@@ -101,7 +101,38 @@ AUTH = Stage(
     nontrivial=lambda e: True,
 )
 
+RECEIPT = Stage(
+    family="receipt",
+    mc={"quick": [("MC_Receipt.tla", "MC_Receipt.cfg", "pass"), ("MC_Receipt.tla", "MC_Receipt_neg.cfg", "fail")],
+        "thorough": [("MC_Receipt.tla", "MC_Receipt_t.cfg", "pass"), ("MC_Receipt.tla", "MC_Receipt_neg.cfg", "fail")]},
+    parts={"quick": [("", 4)], "thorough": [("", 8)]},
+    trace=("Trace_Receipt.tla", "Trace_Receipt.cfg"),
+    nontrivial=lambda e: True,
+)
+WIRE_BODY = Stage(
+    family="wire",
+    mc={"quick": [], "thorough": []},
+    parts={"quick": [("body", 1)], "thorough": [("body", 2)]},
+    trace=("Trace_Wire.tla", "Trace_Wire.cfg"),
+    nontrivial=lambda e: True,
+)
+
 CHECKS = {
+    "C18": dict(
+        stages=[RECEIPT, WIRE_BODY],
+        technique="TLA+ receipt grammar (Receipt.tla): TLC exhaustive over all orders/subsets of prefix-related keys on the "
+                  "first-occurrence search + TLC validation of recorded extractions; CMPP status-report body through Wire.tla",
+        level_text="TLC checks that the first-occurrence search returns what the receipt carries for every subset, order, "
+                   "spelling and value assignment of the keys sub/submit date/stat (thorough: + dlvrd), the lookup of the "
+                   "fallback spelling without its colon being the negative configuration.  Real extractions: all 256 subsets x "
+                   "random orders x both spellings x values (also longer than the field, SMGP id = any ten octets incl. space/NUL) "
+                   "(thorough: all 8! orders); TLC re-renders the text from the pairs and compares each returned field.  The "
+                   "CMPP status-report body round-trips through the C01 machinery (tag C18.statusreport)",
+        level_note="values are drawn space-free and free of key tokens as the property prescribes; ExtractDeliveryReceipt1 (fixed "
+                   "order Sscanf) is not an order-independent extractor and is only covered by C03",
+        rule="one event per extraction; distinct = distinct events",
+        assumptions=["strings.Join rendering in the driver is re-checked by TLC against Render"],
+    ),
     "C15": dict(
         stages=[AUTH],
         technique="TLA+ handshake state machine (Auth.tla) with RFC 1321 MD5 transcribed into TLA+ (MD5.tla): TLC exhaustive "
